@@ -110,6 +110,10 @@ func runC08(p *Prog, r *Report) {
 	if want("C08.8") {
 		ruleReadErrorsSurface(p, r, "C08.8")
 	}
+	if want("C08.14") {
+		// tolerated manifest damage must not lose acknowledged writes (shared with C04.21)
+		ruleSkippedEntryLeavesNoTrace(p, r, "C08.14")
+	}
 	if want("C08.13") {
 		// a block or table that cannot be read is never skipped as if it were empty
 		ruleIndexedIterator(p, r, "C08.13")
